@@ -49,37 +49,32 @@ def Err.pyName : Err → String
 section generic
 variable {α : Type} [Add α] [Sub α] [Mul α] [Div α] [Neg α] [NatCast α]
 
-/-- Python `abs` on a number -/
-def pabs [LT α] [DecidableLT α] (x : α) : α := if x < ((0 : Nat) : α) then -x else x
-
-/-- `chempy.units.allclose(a, b, rtol, atol)` for scalars (units.py:514-538):
-    `d = abs(a - b); lim = abs(a) * rtol; lim += atol; return d <= lim` -/
+/-- `chempy.units.allclose(a, b, rtol, atol)` for scalars (units.py:514-538).  The expressions `d = abs(a - b)` and
+    `lim = abs(a) * rtol; lim += atol` are GENERATED from the source text (`allcloseD`, `allcloseLim`); hand-written is only the
+    final `return d <= lim` (its text is guarded: `Gen.allcloseReturnText`). -/
 def allclose [LT α] [DecidableLT α] [LE α] [DecidableLE α] (a b rtol atol : α) : Bool :=
-  decide (pabs (a - b) ≤ pabs a * rtol + atol)
+  decide (allcloseD a b ≤ allcloseLim a rtol atol)
 
 /-- the accumulation idiom of electrolytes.py:71-75 and 77-82: `None` without entries, otherwise the first term and
-    then `+=` from the left -/
+    then `+=` from the left (the extractor checks the idiom and that first and added term are the same expression) -/
 def loopSum (f : α → α → α) : List (α × α) → Option α
   | [] => none
   | p :: r => some (r.foldl (fun t q => t + f q.1 q.2) (f p.1 p.2))
 
-/-- `b * z ** 2` -/
-def termTot (b z : α) : α := b * Num.npow z 2
-/-- `b * z` -/
-def termNet (b z : α) : α := b * z
-
-/-- the test of electrolytes.py:83 — `not allclose(net, tot * 0, atol=tot * 1e-14)` (rtol: the default of allclose) -/
+/-- the test of electrolytes.py:83 — `not allclose(net, tot * 0, atol=tot * 1e-14)` (rtol: the default of allclose);
+    `tot * 0` and `tot * 1e-14` are the generated `isNeutralRef`, `isNeutralAtol` -/
 def notNeutral [LT α] [DecidableLT α] [LE α] [DecidableLE α] (net tot : α) : Bool :=
-  !(allclose net (tot * ((0 : Nat) : α)) allcloseRtol (tot * neutralityAtol))
+  !(allclose net (isNeutralRef tot) allcloseRtol (isNeutralAtol tot))
 
 /-- `ionic_strength(molalities, charges, warn=warn)` (list form, electrolytes.py:69-85):
-    value and whether "Molalities not charge neutral" is warned -/
+    value and whether "Molalities not charge neutral" is warned.  The per-ion terms `b * z ** 2`, `b * z` and the result
+    `tot / 2` are the GENERATED `isTermTot`, `isTermNet`, `isResult` (source text); hand-written is the control flow. -/
 def ionicStrength [LT α] [DecidableLT α] [LE α] [DecidableLE α]
     (molalities charges : List α) (warn : Bool) : Except Err (α × Bool) :=
   if molalities.length ≠ charges.length then .error .valueError else
   let ps := molalities.zip charges
-  match loopSum termTot ps, loopSum termNet ps with
-  | some tot, some net => .ok (tot / ((2 : Nat) : α), warn && notNeutral net tot)
+  match loopSum isTermTot ps, loopSum isTermNet ps with
+  | some tot, some net => .ok (isResult tot, warn && notNeutral net tot)
   | _, _ => .error .typeError
 
 /-! ### dict form -/
@@ -112,14 +107,27 @@ def formulaCharge (k : List Char) : Except Err Int :=
     | none => .ok 0
     | some q => .ok q.num
 
-/-- the `OrderedDict([(k, substance_factory(k)) for k in substances.split()])` of electrolytes.py:63-65, charges only -/
-def chargeTable : List (List Char) → Except Err (List (List Char × Int))
+/-- the `OrderedDict([(k, substance_factory(k)) for k in substances.split()])` of electrolytes.py:63-65, charges only;
+    `factory k` is `substance_factory(k).charge` (or the exception the factory raises) -/
+def chargeTableWith (factory : List Char → Except Err Int) : List (List Char) → Except Err (List (List Char × Int))
   | [] => .ok []
-  | k :: r => match formulaCharge k with
+  | k :: r => match factory k with
     | .error e => .error e
-    | .ok z => match chargeTable r with
+    | .ok z => match chargeTableWith factory r with
       | .error e => .error e
       | .ok t => .ok ((k, z) :: t)
+
+/-- with the default factory `Substance.from_formula` -/
+def chargeTable : List (List Char) → Except Err (List (List Char × Int)) := chargeTableWith formulaCharge
+
+/-- the `substances` argument of `ionic_strength` -/
+inductive Substances
+  /-- `None`: the keys of `molalities`, joined by blanks -/
+  | default
+  /-- a string of white-space separated names -/
+  | names (s : List Char)
+  /-- a mapping name → Substance, given by the charges of its values (insertion order, keys distinct) -/
+  | mapping (t : List (List Char × Int))
 
 def lookupCharge (t : List (List Char × Int)) (k : List Char) : Except Err Int :=
   match t.find? (fun p => p.1 == k) with
@@ -135,16 +143,27 @@ def dictPairs (t : List (List Char × Int)) : List (List Char × α) → Except 
       | .error e => .error e
       | .ok ps => .ok ((v, Num.ofInt z) :: ps)
 
-/-- `ionic_strength({key: molality, ...}, warn=warn)` (electrolytes.py:59-68 followed by the list form);
-    the dict is given in insertion order, keys distinct -/
-def ionicStrengthDict [LT α] [DecidableLT α] [LE α] [DecidableLE α]
+/-- `ionic_strength({key: molality, ...}, substances=subs, substance_factory=factory, warn=warn)` (electrolytes.py:59-68
+    followed by the list form); the dict is given in insertion order, keys distinct.  The charge of every entry is looked up
+    BY ITS KEY in `substances` (`substances[k].charge`), whatever the order or size of `substances`. -/
+def ionicStrengthDictG [LT α] [DecidableLT α] [LE α] [DecidableLE α]
+    (factory : List Char → Except Err Int) (subs : Substances)
     (molalities : List (List Char × α)) (warn : Bool) : Except Err (α × Bool) :=
-  match chargeTable (pySplit (joinSp (molalities.map Prod.fst))) with
+  let table : Except Err (List (List Char × Int)) := match subs with
+    | .default => chargeTableWith factory (pySplit (joinSp (molalities.map Prod.fst)))
+    | .names s => chargeTableWith factory (pySplit s)
+    | .mapping t => .ok t
+  match table with
   | .error e => .error e
   | .ok t => match dictPairs t molalities with
     | .error e => .error e
     | .ok [] => .error .valueError      -- `charges, molalities = zip(*[])`
     | .ok ps => ionicStrength (ps.map Prod.fst) (ps.map Prod.snd) warn
+
+/-- `ionic_strength({key: molality, ...}, warn=warn)`: default `substances` and `substance_factory` -/
+def ionicStrengthDict [LT α] [DecidableLT α] [LE α] [DecidableLE α]
+    (molalities : List (List Char × α)) (warn : Bool) : Except Err (α × Bool) :=
+  ionicStrengthDictG formulaCharge .default molalities warn
 
 /-! ### activity products -/
 
